@@ -35,7 +35,7 @@ def corpus():
 
 def generate(rng, tier):
     n = 1500 if tier == 'quick' else 12000
-    out = []
+    out = [{'kind': 'dyn', 'i': i} for i in range(len(dyn_scenarios()))]
     for _ in range(n // 8):
         cells, path = c11.broadcast(rng)
         out.append({'cells': cells, 'target': {'ref': 0}, 'path': path, 'ignore_missing': rng.random() < 0.5})
@@ -53,8 +53,46 @@ def generate(rng, tier):
     return out
 
 
+def dyn_scenarios():
+    """F46: the argument of the last step may be a T expression, evaluated against the target like the arguments of the steps before it:
+    (target factory, spec, expected result | exception class name, expected target afterwards)"""
+    import glom
+    from glom import T, S, Delete
+    return [
+        (lambda: {'k': 'a', 'a': 1, 'b': 2}, Delete(T[T['k']]), None, {'k': 'a', 'b': 2}),
+        (lambda: {'k': 'a', 'd': {'a': 1, 'b': 2}}, Delete(T['d'][T['k']]), None, {'k': 'a', 'd': {'b': 2}}),
+        (lambda: {'i': 1, 'l': [5, 6, 7]}, Delete(T['l'][T['i']]), None, {'i': 1, 'l': [5, 7]}),
+        (lambda: {'k': 'zz', 'd': {'a': 1}}, Delete(T['d'][T['k']]), 'PathDeleteError', {'k': 'zz', 'd': {'a': 1}}),
+        (lambda: {'k': 'zz', 'd': {'a': 1}}, Delete(T['d'][T['k']], ignore_missing=True), None, {'k': 'zz', 'd': {'a': 1}}),
+        (lambda: {'k': 'a', 'd': {'a': 1, 'b': 2}}, (S(w=T['d']), Delete(S['w'][T['k']]), T), None, {'k': 'a', 'd': {'b': 2}}),
+        (lambda: {'k': 'a', 'rows': [{'a': 1, 'b': 2}, {'a': 3}]}, Delete(T['rows'].__star__()[T['k']]), None, {'k': 'a', 'rows': [{'b': 2}, {}]}),
+    ]
+
+
+def run_dyn(case):
+    import glom
+    mk, spec, exc, after = dyn_scenarios()[case['i']]
+    target = mk()
+    try:
+        ret = glom.glom(target, spec)
+        got = None if ret is target else 'returned another object'
+    except glom.GlomError as e:
+        got = type(e).__name__
+    problems = []
+    if got != exc:
+        problems.append('dynamic last argument, scenario %d: outcome %r, required %r' % (case['i'], got, exc))
+    if target != after:
+        problems.append('dynamic last argument, scenario %d: target afterwards %r, required %r' % (case['i'], target, after))
+    return {'problems': problems}
+
+
+_TRIV = None
+
+
 def run_impl(case):
     import glom
+    if case.get('kind') == 'dyn':
+        return run_dyn(case)
     hr = HeapRealiser(case['cells'], c11.class_factory)
     target = hr.val(case['target'])
     before = c11.snapshot(hr, case['cells'])
@@ -69,15 +107,25 @@ def run_impl(case):
 
 
 def coq_case(case, out):
+    global _TRIV
+    if case.get('kind') == 'dyn':
+        if _TRIV is None:
+            t = corpus()[0]
+            _TRIV = (t, run_impl(t))
+        return coq_case(*_TRIV)
     op = '(OpDelete %s %s)' % (clist(c11.seg_coq(p) for p in case['path']), cbool(case['ignore_missing']))
     return '(mkM %s %s %s %s)' % (heap_coq(case['cells']), gval_coq(case['target']), op, c11.impl_coq(out))
 
 
 def model_dump_term(case):
+    if case.get('kind') == 'dyn':
+        return '0'
     return 'm_model %s' % coq_case(case, {'raise': 'x'})
 
 
 def direct_oracle(case, out):
+    if case.get('kind') == 'dyn':
+        return '; '.join(out['problems']) if out.get('problems') else None
     if out.get('ok') and not out.get('same_object'):
         return 'delete() did not return the target object'
     wild = any(p[0] in 'xX' for p in case['path'])
@@ -87,10 +135,14 @@ def direct_oracle(case, out):
 
 
 def nontrivial(case, out):
+    if case.get('kind') == 'dyn':
+        return True
     return len(case['path']) >= 2 or 'raise' in out or case['ignore_missing']
 
 
 def classify(case, out):
+    if case.get('kind') == 'dyn':
+        return 'dyn'
     wild = any(p[0] in 'xX' for p in case['path'])
     return '%s:%s:ign=%s%s' % ('raise:' + out['raise'] if 'raise' in out else 'ok', len(case['path']), case['ignore_missing'], ':wild' if wild else '')
 
